@@ -141,18 +141,56 @@ def weave_body(name, body, loops_spec, proof_entry, used):
     return out
 
 
-def default_contract(item):
-    """Frame contract for a grammar function that has no @fn entry."""
-    if re.search(r'\(\s*p\s*:\s*&mut\s+Parser', item.header):
-        return {'requires': 'old(p).wf()',
-                'ensures': 'ext(*old(p), *final(p)), depth(final(p).events@) == depth(old(p).events@)'}
-    return {}
+def candidate_contract(item):
+    """Candidate clauses for a grammar function that has no @fn entry (a helper somebody added or renamed).
+    -> {'requires': [..], 'ensures': [..], 'fixed_requires': [..], 'fixed_ensures': [..]} or None.
+    `fixed_*` is the frame every grammar function must keep; the other clauses are CANDIDATES that
+    tools/prop_parser.py prunes Houdini-style (a requires candidate that fails at some call site and an
+    ensures candidate that the body does not establish are dropped) until nothing changes."""
+    mm = re.search(r'\(\s*(p|self)\s*:\s*&mut\s+Parser', item.header) or (re.search(r'\(\s*&mut self', item.header) and item.owner == 'Parser')
+    if not mm:
+        return None
+    v = 'self' if item.owner == 'Parser' else 'p'
+    marks = re.findall(r'(\w+)\s*:\s*MarkOpened', item.header)
+    closed = re.findall(r'(\w+)\s*:\s*MarkClosed', item.header)
+    d = -1 if marks else 0
+    c = {'fixed_requires': ['old(%s).wf_tok()' % v, 'old(%s).wf_ev()' % v],
+         'fixed_ensures': ['lp(*old(%s), *final(%s), %d)' % (v, v, d)],
+         'requires': ['old(%s).pos < old(%s).tokens@.len()' % (v, v)],
+         'ensures': ['prog(*old(%s), *final(%s))' % (v, v), 'final(%s).pos == old(%s).pos + 1' % (v, v),
+                     'final(%s).pos == old(%s).pos' % (v, v),
+                     'EXPR_FIRST_spec(old(%s).cur()) ==> prog(*old(%s), *final(%s))' % (v, v, v),
+                     'PATTERN_FIRST_spec(old(%s).cur()) ==> prog(*old(%s), *final(%s))' % (v, v, v),
+                     'TYPE_FIRST_spec(old(%s).cur()) ==> prog(*old(%s), *final(%s))' % (v, v, v)]}
+    for m in marks:
+        c['fixed_requires'] += ['open_at(*old(%s), %s)' % (v, m), 'depth(old(%s).events@) >= 1' % v]
+    for m in closed:
+        c['requires'].append('%s.index <= old(%s).events@.len()' % (m, v))
+    lead = re.match(r'\{\s*assert!\(\s*(?:p|self)\.at\(\s*(SyntaxKind::\w+)\s*\)\s*\)\s*;', item.body)
+    if lead:
+        c['fixed_requires'].append('old(%s).cur() == %s' % (v, lead.group(1)))
+    if re.search(r'->\s*MarkClosed\s*$', item.header.strip()):
+        c['ensures'].append('mark_ok(*old(%s), *final(%s), r)' % (v, v))
+    if re.search(r'->\s*bool\s*$', item.header.strip()):
+        c['ensures'].append('r ==> prog(*old(%s), *final(%s))' % (v, v))
+    return c
 
 
-def emit_fn(item, fns_spec, loops_spec, used_fn, used_loop, defaulted):
+def default_contract(item, inferred=None):
+    """Contract for a grammar function that has no @fn entry: the fixed frame plus the candidates that are
+    still alive (all of them at the start of the inference)."""
+    c = candidate_contract(item)
+    if c is None:
+        return {}
+    alive = inferred.get(item.name) if inferred is not None and item.name in inferred else {'requires': c['requires'], 'ensures': c['ensures']}
+    return {'requires': ', '.join(c['fixed_requires'] + alive['requires']),
+            'ensures': ', '.join(c['fixed_ensures'] + alive['ensures'])}
+
+
+def emit_fn(item, fns_spec, loops_spec, used_fn, used_loop, defaulted, inferred=None):
     sp = fns_spec.get(item.name)
     if sp is None:
-        sp = default_contract(item)
+        sp = default_contract(item, inferred)
         if sp:
             defaulted.append(item.name)
     else:
@@ -207,7 +245,7 @@ def emit_const(item):
     return spec + exec_
 
 
-def assemble(ex, prelude, fns_spec, loops_spec, stubs, top=None):
+def assemble(ex, prelude, fns_spec, loops_spec, stubs, top=None, inferred=None):
     """-> (unit text, linemap [(unit_line, repo_path, repo_line, item name)], info)"""
     used_fn, used_loop, defaulted = set(), set(), []
     chunks = []   # (text, item or None)
@@ -229,11 +267,11 @@ def assemble(ex, prelude, fns_spec, loops_spec, stubs, top=None):
         head = ex['impl_parser_header'] if owner == 'Parser' else 'impl %s' % owner
         chunks.append((head + ' {\n', None))
         for it in its:
-            chunks.append((emit_fn(it, fns_spec, loops_spec, used_fn, used_loop, defaulted), it))
+            chunks.append((emit_fn(it, fns_spec, loops_spec, used_fn, used_loop, defaulted, inferred), it))
         chunks.append(('}\n', None))
     for it in items:
         if it.kind == 'fn' and not it.owner:
-            chunks.append((emit_fn(it, fns_spec, loops_spec, used_fn, used_loop, defaulted), it))
+            chunks.append((emit_fn(it, fns_spec, loops_spec, used_fn, used_loop, defaulted, inferred), it))
     if top:
         chunks.append((top.replace('@PARSER_LITERAL@', ex['parser_literal']) + '\n', None))
     chunks.append(('} // verus!\nfn main() {}\n', None))
